@@ -242,7 +242,7 @@ def runHist : Obj → Nat → List String → Option (List String × Obj × Nat)
 
 def copyOp (s : Obj) (o' : Nat) (n : Nat) (op : String) : Option (Except Exc Copied) :=
   match words op with
-  | ["pickle"] => some (pickleRoundTrip E s o' n)
+  | ["pickle", _] => some (pickleRoundTrip E s o' n)
   | ["copy"] => some (copyCopy E s o' n)
   | ["deepcopy"] => some (.ok (deepcopyObj E s o' n))
   | ["clone", "n"] => some (.ok (cloneTraits E s o' none n))
